@@ -129,6 +129,7 @@ fn collect(env: &Arc<Env>, hung: bool) -> RunResult {
 /// holds the history leaked on purpose and the phantom holders.
 fn final_table_check(env: &Env) -> bool {
 	let table = env.exec.table();
+	let released = env.exec.lock().released_transients.clone();
 	let sh = env.sh();
 	let mut ok = true;
 	let mut detail = Vec::new();
@@ -146,6 +147,9 @@ fn final_table_check(env: &Env) -> bool {
 			}
 		}
 		for (l, shr, who) in &sh.phantoms {
+			if released.contains(&(*l, *who)) {
+				continue;
+			}
 			if *l == lid {
 				if *shr {
 					exp_s.push(*who)
